@@ -116,9 +116,14 @@ func stallCheck(t *testing.T) {
 			r.Violate("stall", ji, "stall:no-error", "NewConn returned success on a stalled, incomplete first record", c)
 		case elapsed > d:
 			r.Violate("stall", ji, "stall:late-return", fmt.Sprintf("NewConn returned at virtual %v, after the %v deadline", elapsed, d), c)
-		case !sawDeadline:
-			r.Violate("stall", ji, "stall:no-deadline-set", "NewConn returned an error without ever setting a deadline on the transport (observed events disagree with the documented mechanism)", c)
 		default:
+			// HOW the blocked read was interrupted (a deadline on the transport, or closing it) is the implementation's
+			// business: the statement asks for the return, in time, with an error. The mechanism is only counted.
+			if sawDeadline {
+				r.Count("stall_interrupted_by_a_deadline_on_the_transport", 1)
+			} else {
+				r.Count("stall_interrupted_without_a_deadline", 1)
+			}
 			r.Count("stall_ok", 1)
 			if elapsed == d {
 				r.Count("stall_returned_exactly_at_deadline", 1)
